@@ -78,12 +78,39 @@ def handleModel (toks : List String) : String :=
       | .ok (.indefinite, _) => if m == .der then "err content" else "indef"
       | .error e => e.toStr
     | _, _ => "bad-op"
-  | "run" :: mode :: _src :: hex :: script =>
+  | "run" :: mode :: src :: hex :: script =>
     match Mode.ofString mode, ofHex hex, parseScript script with
     | some m, some bs, some sc =>
-      match runScript m bs sc with
-      | .ok (tr, rest) => s!"ok {" ".intercalate tr.toList} | rest={rest}"
-      | .error e => e.toStr
+      let showG : String :=
+        match runScript m bs sc with
+        | .ok (tr, rest) => s!"ok {" ".intercalate tr.toList} | rest={rest}"
+        | .error e => e.toStr
+      -- streaming source kinds are answered by the stream layer when the script is capture-free
+      let polOf (s : String) : Option Policy :=
+        if s == "stingy" then some (fun _ len avail => min len avail)
+        else if s == "all" then some (fun _ _ avail => avail)
+        else if s.startsWith "plus" then (s.drop 4).toString.toNat?.map fun k => fun _ len avail => min (len + k) avail
+        else if s.startsWith "chunk" then (s.drop 5).toString.toNat?.map fun c =>
+          let c := max c 1
+          fun _ len avail => min ((min len avail + c - 1) / c * c) avail
+        else none
+      let (polName, failAt, withCount) : String × Option Nat × Bool :=
+        if src.startsWith "fail" then
+          match ((src.drop 4).toString.splitOn ":") with
+          | [k, pn] => (pn, k.toNat?, true)
+          | _ => (src, none, false)
+        else if src.startsWith "count:" then ((src.drop 6).toString, none, true)
+        else (src, none, false)
+      match polOf polName with
+      | none => if withCount then "nomodel" else showG
+      | some pol =>
+        match runScriptS pol failAt m bs sc with
+        | none => if withCount then "nomodel" else showG
+        | some (r, reqs) =>
+          let base := match r with
+            | .ok (tr, rest) => s!"ok {" ".intercalate tr.toList} | rest={rest}"
+            | .error e => e.toStr
+          if withCount then s!"{base} | requests={reqs}" else base
     | _, _, _ => "bad-op"
   | "prim" :: mode :: hex :: ops =>
     match Mode.ofString mode, ofHex hex, parsePrimOps (ops.length + 2) (ops ++ ["]"]) with
